@@ -50,55 +50,55 @@ pub fn f3_commit<const M: usize, const K: usize, const SIZE: usize, const ALIGN:
         // by the sentinel itself; real addresses are only 8-aligned and take the slow path)
         let r = if SLOW { bump.alloc_layout_slow(layout).ok_or(crate::AllocErr) } else { bump.try_alloc_layout(layout) };
 
-        assert!(NFREE == 0, "[C03] an allocation gave memory back to the global allocator");
-        assert!(!FOREIGN_FREE && !DOUBLE_FREE, "[C03] bad free during an allocation");
-        assert!(empty_is_pristine(), "[C20] shared static sentinel modified");
+        vassert!(NFREE == 0, "NEVER: [C03] an allocation gave memory back to the global allocator");
+        vassert!(!FOREIGN_FREE && !DOUBLE_FREE, "NEVER: [C03] bad free during an allocation");
+        vassert!(empty_is_pristine(), "NEVER: [C20] shared static sentinel modified");
         // the old chunk is never touched by the slow path
         if K > 0 && NREC > nrec0 {
-            assert!(snap(cur.as_ptr()) == s_old, "[C01,C08] footer of the previous chunk changed");
-            assert!(cur.as_ref().ptr.get().as_ptr() as usize == old_ptr, "[C01] finger of the previous chunk moved");
+            vassert!(snap(cur.as_ptr()) == s_old, "NEVER: [C01,C08] footer of the previous chunk changed");
+            vassert!(cur.as_ref().ptr.get().as_ptr() as usize == old_ptr, "NEVER: [C01] finger of the previous chunk moved");
         }
         match r {
             Ok(p) => {
                 let p = p.as_ptr() as usize;
-                assert!(p != 0, "[C01] null pointer returned");
-                assert!(p & (align - 1) == 0, "[C04] requested alignment not honoured (new chunk)");
-                assert!(p & (M - 1) == 0, "[C04] minimum alignment not honoured (new chunk)");
+                vassert!(p != 0, "NEVER: [C01] null pointer returned");
+                vassert!(p & (align - 1) == 0, "NEVER: [C04] requested alignment not honoured (new chunk)");
+                vassert!(p & (M - 1) == 0, "NEVER: [C04] minimum alignment not honoured (new chunk)");
                 if NREC == nrec0 {
                     // served by the current chunk
-                    assert!(NREQ == 0 || bump.current_chunk_footer.get() == cur, "[C09] current chunk changed without a new block");
-                    assert!(bump.allocated_bytes() == ab0, "[C08] accounting changed without a chunk change");
+                    vassert!(NREQ == 0 || bump.current_chunk_footer.get() == cur, "NEVER: [C09] current chunk changed without a new block");
+                    vassert!(bump.allocated_bytes() == ab0, "NEVER: [C08] accounting changed without a chunk change");
                     kani::cover!(true, "INFO: served by the current chunk");
                 } else {
-                    assert!(NREC == nrec0 + 1, "[C03] more than one block obtained for one request");
+                    vassert!(NREC == nrec0 + 1, "NEVER: [C03] more than one block obtained for one request");
                     let rec = LEDGER[nrec0];
                     let f = bump.current_chunk_footer.get();
                     let fa = f.as_ptr() as usize;
                     // the new chunk is exactly the block the global allocator handed out
-                    assert!(f.as_ref().data.as_ptr() as usize == rec.ptr, "[C03] chunk start is not the block obtained");
-                    assert!(f.as_ref().layout.size() == rec.size && f.as_ref().layout.align() == rec.align,
-                            "[C03] recorded layout differs from the layout requested from the global allocator");
-                    assert!(fa + FOOTER_SIZE == rec.ptr + rec.size, "[C01] footer is not at the end of the block obtained");
-                    assert!(f.as_ref().prev.get() == cur, "[C03,C10] new chunk is not linked in front of the previous one");
+                    vassert!(f.as_ref().data.as_ptr() as usize == rec.ptr, "NEVER: [C03] chunk start is not the block obtained");
+                    vassert!(f.as_ref().layout.size() == rec.size && f.as_ref().layout.align() == rec.align,
+                            "NEVER: [C03] recorded layout differs from the layout requested from the global allocator");
+                    vassert!(fa + FOOTER_SIZE == rec.ptr + rec.size, "NEVER: [C01] footer is not at the end of the block obtained");
+                    vassert!(f.as_ref().prev.get() == cur, "NEVER: [C03,C10] new chunk is not linked in front of the previous one");
                     // C01: block inside the new chunk, below the footer
-                    assert!(p >= rec.ptr && p + size <= fa, "[C01] block outside the new chunk / over its footer");
+                    vassert!(p >= rec.ptr && p + size <= fa, "NEVER: [C01] block outside the new chunk / over its footer");
                     let fp = f.as_ref().ptr.get().as_ptr() as usize;
-                    assert!(fp <= p && fp >= rec.ptr && fp & (M - 1) == 0, "[C01,C04] finger of the new chunk invalid");
+                    vassert!(fp <= p && fp >= rec.ptr && fp & (M - 1) == 0, "NEVER: [C01,C04] finger of the new chunk invalid");
                     // C08
-                    assert!(bump.allocated_bytes() == ab0 + (rec.size - FOOTER_SIZE), "[C08] allocated_bytes != previous + usable size of the new chunk");
-                    assert!(bump.allocated_bytes_including_metadata() == ledger_live_bytes(), "[C08] including_metadata != bytes held");
+                    vassert!(bump.allocated_bytes() == ab0 + (rec.size - FOOTER_SIZE), "NEVER: [C08] allocated_bytes != previous + usable size of the new chunk");
+                    vassert!(bump.allocated_bytes_including_metadata() == ledger_live_bytes(), "NEVER: [C08] including_metadata != bytes held");
                     // C07
                     if let Some(l) = limit {
-                        assert!(bump.allocated_bytes() <= l, "[C07] bytes held exceed the allocation limit after acquiring a chunk");
+                        vassert!(bump.allocated_bytes() <= l, "NEVER: [C07] bytes held exceed the allocation limit after acquiring a chunk");
                     }
                     // C18: geometric growth when the first attempt is granted and nothing limits it
                     if limit.is_none() && mask & 1 == 0 && NLOG >= 1 && LOG[0].0 == rec.size && K > 0 {
-                        assert!(rec.size - FOOTER_SIZE >= 2 * USABLE[K - 1], "[C18] new chunk smaller than twice the previous one although nothing refused it");
+                        vassert!(rec.size - FOOTER_SIZE >= 2 * USABLE[K - 1], "NEVER: [C18] new chunk smaller than twice the previous one although nothing refused it");
                     }
-                    assert!(rec.size - FOOTER_SIZE >= size, "[C18] new chunk smaller than the request");
+                    vassert!(rec.size - FOOTER_SIZE >= size, "NEVER: [C18] new chunk smaller than the request");
                     // C10 (fresh chunk): uniform request leaves no gap below the footer
                     if align <= 16 && align >= M && size & (align - 1) == 0 {
-                        assert!(p + size == fa, "[C10] gap between the first object of a new chunk and its footer");
+                        vassert!(p + size == fa, "NEVER: [C10] gap between the first object of a new chunk and its footer");
                     }
                     kani::cover!(true, "REACH: new chunk obtained");
                     kani::cover!(rec.ptr & 4095 != 0, "INFO: new block displaced (aligned to the request only)");
@@ -109,10 +109,10 @@ pub fn f3_commit<const M: usize, const K: usize, const SIZE: usize, const ALIGN:
             }
             Err(_) => {
                 // C09: failure changes nothing; C03: no half-made chunk leaks
-                assert!(NREC == nrec0, "[C03,C09] a block was obtained but the request failed (leak)");
-                assert!(bump.current_chunk_footer.get() == cur, "[C09] current chunk changed by a failed request");
-                assert!(cur.as_ref().ptr.get().as_ptr() as usize == old_ptr, "[C09] finger moved by a failed request");
-                assert!(bump.allocated_bytes() == ab0 && bump.chunk_capacity() == cap0, "[C08,C09] accounting/capacity changed by a failed request");
+                vassert!(NREC == nrec0, "NEVER: [C03,C09] a block was obtained but the request failed (leak)");
+                vassert!(bump.current_chunk_footer.get() == cur, "NEVER: [C09] current chunk changed by a failed request");
+                vassert!(cur.as_ref().ptr.get().as_ptr() as usize == old_ptr, "NEVER: [C09] finger moved by a failed request");
+                vassert!(bump.allocated_bytes() == ab0 && bump.chunk_capacity() == cap0, "NEVER: [C08,C09] accounting/capacity changed by a failed request");
                 kani::cover!(true, "REACH: request failed");
                 kani::cover!(NREQ >= 2, "INFO: several attempts, all refused");
                 kani::cover!(NREQ == 0, "INFO: failed without asking (limit or size)");
@@ -179,24 +179,24 @@ pub fn f3_new_chunk<const M: usize, const SIZE: usize, const ALIGN: usize, const
         let f = Bump::<M>::new_chunk(d, layout, empty_footer());
         match f {
             Some(f) => {
-                assert!(NREC == 1, "[C03] new_chunk did not obtain exactly one block");
+                vassert!(NREC == 1, "NEVER: [C03] new_chunk did not obtain exactly one block");
                 let rec = LEDGER[0];
                 let fa = f.as_ptr() as usize;
-                assert!(rec.size == d.size && rec.align == d.align, "[C03] block requested with a different layout than computed");
-                assert!(f.as_ref().layout.size() == rec.size && f.as_ref().layout.align() == rec.align,
-                        "[C03] recorded layout differs from the layout requested from the global allocator");
-                assert!(f.as_ref().data.as_ptr() as usize == rec.ptr && fa + FOOTER_SIZE == rec.ptr + rec.size, "[C01,C03] footer not at the end of the block obtained");
-                assert!(rec.ptr & (ALIGN - 1) == 0 && rec.align >= 16 && rec.align >= M && rec.align >= ALIGN, "[C04] chunk alignment");
-                assert!(f.as_ref().ptr.get().as_ptr() as usize == fa, "[C10] fresh chunk's finger is not at the footer");
-                assert!(f.as_ref().allocated_bytes == rec.size - FOOTER_SIZE, "[C08] accounting of a first chunk != its usable size");
-                assert!(f.as_ref().prev.get() == empty_footer(), "[C03] chunk not linked to its predecessor");
+                vassert!(rec.size == d.size && rec.align == d.align, "NEVER: [C03] block requested with a different layout than computed");
+                vassert!(f.as_ref().layout.size() == rec.size && f.as_ref().layout.align() == rec.align,
+                        "NEVER: [C03] recorded layout differs from the layout requested from the global allocator");
+                vassert!(f.as_ref().data.as_ptr() as usize == rec.ptr && fa + FOOTER_SIZE == rec.ptr + rec.size, "NEVER: [C01,C03] footer not at the end of the block obtained");
+                vassert!(rec.ptr & (ALIGN - 1) == 0 && rec.align >= 16 && rec.align >= M && rec.align >= ALIGN, "NEVER: [C04] chunk alignment");
+                vassert!(f.as_ref().ptr.get().as_ptr() as usize == fa, "NEVER: [C10] fresh chunk's finger is not at the footer");
+                vassert!(f.as_ref().allocated_bytes == rec.size - FOOTER_SIZE, "NEVER: [C08] accounting of a first chunk != its usable size");
+                vassert!(f.as_ref().prev.get() == empty_footer(), "NEVER: [C03] chunk not linked to its predecessor");
                 crate::dealloc_chunk_list(f);
-                assert!(NFREE == 1 && !FOREIGN_FREE && !DOUBLE_FREE && ledger_live_count() == 0, "[C03] chunk list destructor did not return exactly the block");
-                assert!(!LAYOUT_MISMATCH, "[C03] block freed with a layout other than the one it was requested with");
+                vassert!(NFREE == 1 && !FOREIGN_FREE && !DOUBLE_FREE && ledger_live_count() == 0, "NEVER: [C03] chunk list destructor did not return exactly the block");
+                vassert!(!LAYOUT_MISMATCH, "NEVER: [C03] block freed with a layout other than the one it was requested with");
                 kani::cover!(true, "REACH: chunk created and released");
             }
             None => {
-                assert!(false, "[C09] new_chunk failed although the allocator accepted");
+                vassert!(false, "NEVER: [C09] new_chunk failed although the allocator accepted");
             }
         }
     }
